@@ -485,7 +485,51 @@ def deep_family(ctx, only=None):
         if init.b.child.c.x is not init.a or init.b.p is not init.d:
             return "linked-parameter-has-wrong-value", {"c.x": short(init.b.child.c.x, 80), "b.p": short(init.b.p, 80)}
 
-    scen = {"S0": s0, "S1": s1, "S2": s2, "S3": s3, "S4": s4, "S5": s5, "S6": s6}
+    def s7(case):
+        # the deep target, its enclosing component (b.child) and the group (b) are all link targets: every enclosing level needs its edge
+        base = [("a", "b.child.init_args.c.init_args.x"), ("d", "b.p"), ("d", "b.child.init_args.p")]
+        for order in itertools.permutations(range(3)):
+            if (order[0] == 0) != (case["links"] == 0):
+                continue  # links=0: the deep link is declared first; links=1: another one is
+            p = ArgumentParser(exit_on_error=False)
+            for nm in case["decl"]:
+                if nm == "a":
+                    p.add_class_arguments(DSrc, "a")
+                elif nm == "b":
+                    p.add_class_arguments(DTop, "b")
+                else:
+                    p.add_class_arguments(DSink, "d")
+            for i in order:
+                p.link_arguments(*base[i], apply_on="instantiate")
+            del LOG[:]
+            init = p.instantiate_classes(p.parse_args(["--b.child=" + mid_spec]))
+            names = [x[0] for x in LOG]
+            if sorted(names) != ["DLeaf", "DMid", "DSink", "DSrc", "DTop"]:
+                return "class-not-constructed-exactly-once", {"constructed": names, "link_order": list(order)}
+            pos = {n: i for i, n in enumerate(names)}
+            if not (pos["DSrc"] < pos["DLeaf"] < pos["DMid"] < pos["DTop"] and pos["DSink"] < pos["DMid"]):
+                return "source-constructed-after-dependant", {"constructed": names, "link_order": list(order)}
+            if init.b.child.c.x is not init.a or init.b.p is not init.d or init.b.child.p is not init.d:
+                return "linked-parameter-has-wrong-value", {"c.x": short(init.b.child.c.x, 60), "b.p": short(init.b.p, 60), "child.p": short(init.b.child.p, 60), "link_order": list(order)}
+        # a cycle that runs through the middle component: b.child -> a -> b.child...c (inside b.child)
+        p = ArgumentParser(exit_on_error=False)
+        for nm in case["decl"]:
+            if nm == "a":
+                p.add_class_arguments(DSrc, "a")
+            elif nm == "b":
+                p.add_class_arguments(DTop, "b")
+            else:
+                p.add_class_arguments(DSink, "d")
+        first = [("d", "b.p"), ("b.child.r", "a.p")]
+        for src, tgt in (first if case["links"] == 0 else first[::-1]):
+            p.link_arguments(src, tgt, apply_on="instantiate")
+        try:
+            p.link_arguments("a", "b.child.init_args.c.init_args.x", apply_on="instantiate")
+        except ValueError:
+            return None
+        return "cycle-through-a-nested-component-accepted", {}
+
+    scen = {"S0": s0, "S1": s1, "S2": s2, "S3": s3, "S4": s4, "S5": s5, "S6": s6, "S7": s7}
     for name, fn in scen.items():
         for decl in itertools.permutations(["a", "b", "d"]):
             for links in (0, 1):
